@@ -4,7 +4,7 @@
 # Exit 0 iff every listed check reports a violation (rc=1) with the change applied and /repo is clean again.
 cd /verif || exit 2
 fail=0
-for d in seeded/*/; do
+for d in seeded/${1:-*}/; do
   id=$(basename "$d")
   [ -f "$d/meta.json" ] || continue
   checks=$(python3 -c "import json;print(' '.join(json.load(open('$d/meta.json'))['caught_by_quick']))")
